@@ -8,12 +8,13 @@ import itertools, json, os
 import vlib
 from vlib import hexs
 
+import ipaddress, subprocess
+
 REQUIRED = ['loadlist_spec', 'loadlist_cf_spec', 'listLines_plain', 'loadint_spec', 'finddomain_spec',
             'no_label_confusion', 'ipbl_spec', 'ipbl_valid_list', 'matchnet4_spec', 'matchnet6_spec',
             'loader_no_fault', 'finddomain_no_fault', 'ipbl_no_fault', 'gen_constants', 'finddomain_iff',
-            'ipbl_strict_counterexample', 'ipbl_strict_partial']
-
-MY_FILES = ('lib/control.c', 'lib/match.c', 'qsmtpd/antispam.c', 'Control.lean')
+            'ipbl_strict_counterexample', 'ipbl_strict_partial', 'matchdomain_spec', 'lookupipbl_spec',
+            'missing_file_is_default', 'unreadable_or_locked_is_error', 'content_is_content']
 
 CORR = {
     'lload': 'model QsmtpModel.Control.lload vs lib/control.c:lloadfilefd',
@@ -21,12 +22,13 @@ CORR = {
     'oneliner': 'model QsmtpModel.Control.loadoneliner vs lib/control.c:loadonelinerfd',
     'loadlist': 'model QsmtpModel.Control.loadlist vs lib/control.c:loadlistfd',
     'finddomain': 'model QsmtpModel.Control.finddomain vs lib/control.c:finddomain',
-    'finddomainfd': 'model QsmtpModel.Control.finddomain vs lib/control.c:finddomainfd (mmap path)',
+    'finddomainfd': 'model QsmtpModel.Control.finddomainfd vs lib/control.c:finddomainfd (mmap path)',
     'matchdomain': 'model QsmtpModel.Match.matchdomain vs lib/match.c:matchdomain',
     'ip4match': 'model QsmtpModel.Match.ip4Matchnet vs lib/match.c:ip4_matchnet',
     'ip6match': 'model QsmtpModel.Match.ip6Matchnet vs lib/match.c:ip6_matchnet',
     'ipbl': 'model QsmtpModel.Match.checkIpblFile vs qsmtpd/antispam.c:check_ip4/check_ip6',
     'lookupipbl': 'model QsmtpModel.Match.lookupipbl vs qsmtpd/antispam.c:lookupipbl',
+    'cfstate': 'models *File (missing / unreadable / locked file) vs lib/control.c loaders, finddomainfd, lookupipbl',
 }
 
 
@@ -47,7 +49,7 @@ def pred(case, impl):
     if op in ('finddomain', 'finddomainfd'):
         if op == 'finddomainfd' and t[1] == '-':
             # empty file through mmap_fd(): -1 with errno 0, read as "not listed" by userconf_find_domain()
-            return 'chk_nofault | %s' % impl
+            return 'chk_ctl_nofault | %s' % impl
         return 'chk_finddomain %s %s | %s' % (t[1], t[2], impl)
     if op in ('ipbl', 'lookupipbl'):
         return 'chk_ipbl %s %s %s | %s' % (t[1], t[2], t[3], impl)
@@ -58,8 +60,10 @@ def pred(case, impl):
         return 'chk_matchnet %s %s %s %s | %s' % (op[2], t[1], t[2], t[3], impl)
     if op == 'matchdomain':
         return 'chk_matchdomain %s %s | %s' % (t[1], t[2], impl)
+    if op == 'cfstate':
+        return 'chk_cfstate %s | %s' % (' '.join(t[1:]), impl)
     if op in ('lload', 'oneliner'):
-        return 'chk_nofault | %s' % impl
+        return 'chk_ctl_nofault | %s' % impl
     return None
 
 
@@ -340,21 +344,87 @@ def gen_net_cases(ctx):
     return cases
 
 
-def not_mine(u):
-    return u.startswith('extract:') and not any(f in u for f in MY_FILES)
+def gen_env_cases(ctx):
+    cases = []
+    ip4 = hexs(bytes(10) + b'\xff\xff\x0a\x00\x00\x01')
+    for st in ('absent', 'unreadable', 'locked'):
+        for n in (0, 1, 2, 3):
+            cases.append('cfstate lload %s %d' % (st, n))
+        for d in (0, 7, 320):
+            cases.append('cfstate loadint %s %d' % (st, d))
+        cases.append('cfstate oneliner %s' % st)
+        for m in (0, 1, 2):
+            cases.append('cfstate loadlist %s %d' % (st, m))
+        for q in (b'a', b'example.org', b'x.example.org'):
+            cases.append('cfstate finddomainfd %s %s' % (st, hexs(q)))
+        for fam in ('4', '6'):
+            cases.append('cfstate lookupipbl %s %s %s' % (st, fam, ip4))
+    ctx.count('shape:file-states', len(cases))
+    return cases
+
+
+def addipbl_roundtrip(ctx, h):
+    """tools/addipbl.c writes the list the administrator asked for; lookupipbl must then match exactly
+    the addresses inside the given networks (independent oracle: Python ipaddress)."""
+    rng = ctx.rng
+    exe = os.path.join(ctx.scratch, 'addipbl')
+    r = vlib.sh(['gcc', '-O1', '-w', '-o', exe, os.path.join(vlib.SRC, 'tools', 'addipbl.c')])
+    if r.returncode != 0:
+        ctx.unshown.append('tools/addipbl.c does not build: ' + r.stdout[-300:])
+        return
+    cases, want, how = [], [], []
+    for k in range(80 if ctx.quick() else 800):
+        v4 = rng.random() < 0.5
+        nets, args = [], []
+        bits = 32 if v4 else 128
+        lo = 8 if v4 else 32          # addipbl's own lower bound (check_ipbl_file accepts 8.. for both)
+        for _ in range(rng.randrange(1, 7)):
+            a = ipaddress.IPv4Address(rng.randrange(2 ** 32)) if v4 else ipaddress.IPv6Address(rng.randrange(2 ** 128))
+            r_ = rng.random()
+            if r_ < 0.3:                                   # a host: no mask given
+                args.append(str(a)); nets.append((a, bits))
+            elif r_ < 0.85:
+                m = rng.choice([lo, lo + 1, bits // 2 - 1, bits // 2, bits // 2 + 1, bits - 1, bits, rng.randrange(lo, bits + 1)])
+                args.append('%s/%d' % (a, m)); nets.append((a, m))
+            else:                                          # mask out of range: addipbl says so and ignores the argument
+                args.append('%s/%d' % (a, rng.choice([0, 1, lo - 1, bits + 1, 200])))
+        f = os.path.join(ctx.scratch, 'ipbl-%d' % k)
+        p = subprocess.run([exe, f] + args, stdout=subprocess.PIPE, stderr=subprocess.PIPE)
+        if p.returncode != 0 or not os.path.exists(f):
+            ctx.unshown.append('addipbl failed on %s' % args)
+            return
+        content = open(f, 'rb').read()
+        os.unlink(f)
+        for _ in range(10):
+            a, m = rng.choice(nets) if nets else (ipaddress.ip_address(rng.randrange(2 ** bits)), bits)
+            x = int(a)
+            r_ = rng.random()
+            if r_ < 0.4 and m < bits:
+                x ^= 1 << rng.randrange(0, bits - m)          # inside: flip a host bit
+            elif r_ < 0.8 and m > 0:
+                x ^= 1 << (bits - 1 - rng.randrange(0, m))    # outside this net: flip a network bit
+            else:
+                x = rng.randrange(2 ** bits)
+            inside = any((x >> (bits - mm)) == (int(aa) >> (bits - mm)) for aa, mm in nets)
+            ip = (bytes(10) + b'\xff\xff' + x.to_bytes(4, 'big')) if v4 else x.to_bytes(16, 'big')
+            cases.append('lookupipbl %s %s %s' % ('4' if v4 else '6', hexs(ip), hexs(content)))
+            want.append('1' if inside else '0')
+            how.append('addipbl <file> ' + ' '.join(args))
+    outs = vlib.run_batch(h, cases)
+    fails = [(c, canon(c, o), 'fails ip-list (round trip: after `%s` the client must %smatch)' % (hw, '' if w == '1' else 'not '))
+             for c, o, w, hw in zip(cases, outs, want, how) if o != 'SKIP' and canon(c, o) != w]
+    ctx.count('job:addipbl-roundtrip', len(cases))
+    ctx.cov['evaluations'] += len(cases)
+    vlib.handle_results(ctx, 'addipbl-roundtrip', 'tools/addipbl.c + lookupipbl vs Python ipaddress', [], fails)
 
 
 def run(ctx):
     vlib.lean_prepare(ctx, REQUIRED)
-    # broken anchors of generators that feed other modules' Gen files are not this property's tie
-    foreign = [u for u in ctx.unshown if not_mine(u)]
-    if foreign:
-        ctx.unshown = [u for u in ctx.unshown if not not_mine(u)]
-        ctx.notes.append('ignored (not imported by Control/Match): ' + '; '.join(foreign))
     h = vlib.build_harness(ctx, 'h_control')
     if h:
         corpus = corpus_lines(ctx)
-        jobs = [('corpus', corpus), ('loaders', gen_loader_cases(ctx)), ('domains', gen_domain_cases(ctx)), ('networks', gen_net_cases(ctx))]
+        jobs = [('corpus', corpus), ('loaders', gen_loader_cases(ctx)), ('domains', gen_domain_cases(ctx)), ('networks', gen_net_cases(ctx)),
+                ('states', gen_env_cases(ctx))]
         for name, cases in jobs:
             if not cases:
                 continue
@@ -367,9 +437,10 @@ def run(ctx):
                                         nontrivial=lambda c, o: o not in ('empty', 'null', '0', 'FAULT'),
                                         corr_name=CORR.get(op, op))
                 if op in ('ipbl', 'lookupipbl') and ctx.driver:
-                    pl = [pred(c, canon(c, ho)) for c, ho, _ in res]
+                    pl = [pred(c, canon(c, ho)) for c, ho, _ in res if ho != 'SKIP']
                     strict = sum(1 for o in vlib.run_batch(ctx.driver, pl) if o.startswith('holds strict-differs'))
                     ctx.count('ipbl:match-before-malformed-record (strict reading would be an error)', strict)
+        addipbl_roundtrip(ctx, h)
     if not ctx.quick():
         vlib.leanchecker(ctx, ['QsmtpModel.Props.C16', 'QsmtpModel.Lemmas.Control', 'QsmtpModel.Lemmas.Match'])
     return vlib.finish(ctx, assumptions=[
